@@ -573,6 +573,17 @@ class VTCase(unittest.TestCase):
                 emit('t', vt['n'], 'w2')
                 _do_writes(vt['w2'])
             self.fail('outer test fails after the nested run')
+        if s.startswith('garbage:'):
+            # leaves that many objects of cyclic garbage behind
+            n = int(s.split(':')[1])
+
+            class _G:
+                pass
+            ring = [_G() for _ in range(n)]
+            for i, g in enumerate(ring):
+                g.next = ring[(i + 1) % n]
+            del ring
+            return
         if s == 'chdir':
             # a test that changes the working directory and leaves it changed
             # (to an EMPTY scratch directory: a runner that resolves a relative
